@@ -86,7 +86,9 @@ def programs():
              '    shear_modulus12 : 68e9, shear_modulus23 : 72e9, shear_modulus13 : 52e9},\n'
              '  inelastic_flow : "Norton" {criterion : "Hill" {F : 0.371, G : 0.629, H : 4.052, L : 1.3, M : 1.7, N : 2.1},\n'
              '    K : 120e6, n : 3.1}\n};\n')
-    hplate = [HPE, HGPE, HPS, H3D]
+    # PlaneStress + <Plate> + orthotropic Hooke does not compile (incomplete type ComputeOrthotropicStiffnessTensor<PLANESTRESS,
+    # UNALTERED, PLATE>, StiffnessTensor.ixx:656): left out, reported as a side observation
+    hplate = [HPE, HGPE, H3D]
     P["C44OrthoPipe"] = dict(iso=False, visc=True, conv="Pipe", hyps=ALLH,
                              src=head("C44OrthoPipe", "Implicit", ALLH) + imp + "@OrthotropicBehaviour<Pipe>;\n" + ortho)
     P["C44OrthoPlate"] = dict(iso=False, visc=True, conv="Plate", hyps=hplate,
